@@ -541,7 +541,13 @@ func (c *Catalog) AddJsonRpcMethod(d directive.Directive) *jerr.JApiError {
 		return d.KeywordError(err.Error())
 	}
 
-	if c.Interactions.Has(rpcId) {
+	// The identifiers are compared as they are written in the catalog: a quoted
+	// method name or path can contain blanks, so two different pairs can make the
+	// same "<protocol> <method> <path>" text.
+	_, sameID := c.Interactions.Find(func(k InteractionID, _ Interaction) bool {
+		return k.String() == rpcId.String()
+	})
+	if sameID {
 		return d.KeywordError(fmt.Sprintf("%s %q", jerr.MethodIsAlreadyDefinedInResource, rpcId.String()))
 	}
 
